@@ -4,7 +4,10 @@ Correspondence of the tree model (Model/Tree.v: Contentlines.from_ical, the from
 Component.add, property_items, content lines, to_ical) against the implementation on fixtures, generated
 calendars and critical strings spliced into value / parameter / component-name slots; the leaf value codecs and
 the time-zone cache are oracles recorded from the implementation (C03/C07/C19 and C12 are about those).
-Direct property oracle: p(s(p(x))) == p(x) and s(p(s(p(x)))) == s(p(x))."""
+Direct property oracle: p(s(p(x))) == p(x) and s(p(s(p(x)))) == s(p(x)).
+First-parse clause: syntax trees of the RFC 5545 content-line grammar (Model/RfcLine.v) printed by the model and by an
+independent printer; the real Contentline.parts against the model's rfc_denote inside first_parse_guard
+(theorems C01_first_parse_rfc / C01_first_parse_exact), see run_first_parse_rfc below."""
 import itertools
 
 from . import common
@@ -13,7 +16,9 @@ from . import treelib as T
 FINGERPRINTS = ["cal.Component.from_ical", "cal.Component.add", "cal.Component.property_items",
                 "cal.Component.content_line", "cal.Component.content_lines", "cal.Component.to_ical",
                 "parser.Contentlines.from_ical", "parser.Contentlines.to_ical", "parser.Contentline.parts",
-                "parser.Contentline.from_parts", "prop.TypesFactory.for_property", "caselessdict.canonsort_keys"]
+                "parser.Contentline.from_parts", "prop.TypesFactory.for_property", "caselessdict.canonsort_keys",
+                "parser.escape_string", "parser.unescape_string", "parser.Parameters.from_ical", "parser.q_split",
+                "parser.validate_token", "parser.validate_param_value"]
 GEN = ["Gen_parser", "Gen_cal"]
 ASSUMPTIONS = [
     "typed values are seen as (class, parameters, wire text = value.to_ical()); that each codec is stable on its own "
@@ -134,7 +139,11 @@ def run(ctx, res):
                 "property shapes of all value types, mixed-case names, LF or CRLF), and critical strings (all of length "
                 "<= 2 over 15 symbols, random 3-5) spliced raw into 7 slots (text, URL, unquoted/quoted parameter, "
                 "CATEGORIES item, X- property, component name); non-trivial = parse accepted and the tree has >= 1 "
-                "property; distinct by content")
+                "property; distinct by content.  First parse vs RFC 5545: syntax trees of the content-line grammar "
+                "(corpus of the refutation witnesses, every value / paramtext / quoted-string of length <= 2 over an "
+                "18-symbol critical alphabet, random trees with 0-3 parameters of 1-3 plain or quoted values, repeated names "
+                "in either case) printed by the model and by an independent printer, the real Contentline.parts compared "
+                "with the model's rfc_denote inside first_parse_guard")
     rows, reqs = [], []
     for kind, label, x in cases:
         res.dist(kind)
@@ -263,10 +272,183 @@ def run(ctx, res):
                     res.fail("C01 first parse: a well-formed RFC 5545 property is not read as the text denotes",
                              {"line": n, "value": v, "params": ps}, observed=[str(got), gps], expected=[v, want])
     res.extra["first_parse_cases"] = nfirst
+    run_first_parse_rfc(ctx, res)
     ex = next((r for r in rows if r["kind"] == "generated"), rows[0])
     res.sample({"input": ex["x"][:600], "parsed": _brief(ex["o1"]), "serialised": (ex.get("s1") or "")[:300]})
     res.sample({"splice": [r["kind"], r["label"]] for r in rows if r["kind"].startswith("splice")} and
                {"splice_example": next(([r["kind"], r["label"], r["x"]] for r in rows if r["kind"] == "splice:param"), None)})
+
+
+# ---------------------------------------------------------------------------- first parse vs the RFC 5545 grammar
+# Theorem C01_first_parse_rfc: for every syntax tree of the content-line grammar (Model/RfcLine.v) inside
+# first_parse_guard, Contentline.parts(printed text) is exactly the denotation.  Here: random / exhaustive-small /
+# corpus syntax trees over a critical alphabet; (a) the model's printer against an independent printer written
+# below, (b) the REAL parts() against the model's rfc_denote inside the guard (a difference is a VIOLATION);
+# outside the guard a difference must be what the model's parts() predicts and is the known class C01-F3 / C01-F4.
+RFC_ALPHA = ["a", "B", "z", "9", "-", " ", ";", ":", ",", "=", '"', "\\", "%", "2", "C", "n", "N", "é"]
+RFC_QSAFE = [c for c in RFC_ALPHA if c != '"']
+RFC_SAFE = [c for c in RFC_QSAFE if c not in ";:,"]
+RFC_NAME = list("abzABZ09-")
+RFC_ESC = ["\\,", "\\;", "\\:", "\\\\"]
+RFC_PH = ["%2C", "%3A", "%3B", "%5C"]
+# the witnesses of the C01_first_parse_*_refuted theorems, then lines the guard admits
+RFC_WITNESSES = [
+    ["N", [], "a\\,b"], ["N", [], "a\\\\nb"], ["N", [["P", [[0, "a\\"], [0, "b"]]]], "v"],
+    ["N", [["P", [[1, "a\\;b"]]]], "v"], ["N", [["P", [[0, "a\\"]]], ["Q", [[0, "b"]]]], "v"],
+    ["N", [["P", [[0, "a\\"]]]], "v"], ["N", [], "100%2Cx"], ["N", [["P", [[0, "a%3Ab"], [1, "%5C"]]]], "v"],
+    ["N", [["P", [[0, "a"]]], ["p", [[0, "b"]]]], "v"],
+    ["N", [["P", [[1, "a\\"], [0, "\\n%2c%"]]]], 'x\\ny\\N"q:r";%2%3a\\'],
+    ["Attendee", [["CN", [[0, "Jane Doe"]]], ["x-note", [[1, "a;b:c,d=e"]]],
+                  ["MEMBER", [[1, "mailto:a@x"], [0, "pl\\ain"], [1, ""], [0, ""]]]], 'mailto:j@x;y=1,z\\n"q" 100% é€'],
+    ["X", [["P", [[1, ""]]]], ""], ["X", [["P", [[0, ""]]]], ":"], ["X", [["P", [[0, ""], [0, ""]]]], '"'],
+    ["X", [["P", [[0, "a=b"]]]], "="], ["X", [["P", [[1, "\\"]]]], "v"], ["X", [["P", [[1, "a"]]], ["Q", [[1, ";"]]]], "\\"],
+]
+
+
+def rfc_control(c):
+    o = ord(c)
+    return o <= 8 or 10 <= o <= 31 or o == 127
+
+
+def rfc_name_ok(s):
+    return len(s) > 0 and all(("A" <= c <= "Z") or ("a" <= c <= "z") or ("0" <= c <= "9") or c == "-" for c in s)
+
+
+def rfc_ok(ast):
+    """well-formedness straight from the grammar (independent of the Coq text)"""
+    name, params, value = ast
+    if not rfc_name_ok(name) or any(rfc_control(c) for c in value):
+        return False
+    for k, vals in params:
+        if not rfc_name_ok(k) or not vals:
+            return False
+        for q, t in vals:
+            if any(rfc_control(c) or c == '"' for c in t):
+                return False
+            if not q and any(c in ";:," for c in t):
+                return False
+    return True
+
+
+def rfc_print_py(ast):
+    name, params, value = ast
+    out = [name]
+    for k, vals in params:
+        out.append(";" + k + "=" + ",".join(('"' + t + '"') if q else t for q, t in vals))
+    out.append(":" + value)
+    return "".join(out)
+
+
+def rfc_denote_py(ast):
+    name, params, value = ast
+    ps = []
+    for k, vals in params:
+        ts = [t for _, t in vals]
+        ps.append([k.upper(), ts[0] if len(ts) == 1 else ts])
+    return [name, ps, value]
+
+
+def rfc_guard_py(ast):
+    text = rfc_print_py(ast)
+    ks = [k.upper() for k, _ in ast[1]]
+    return [not any(x in text for x in RFC_ESC), not any(x in text for x in RFC_PH), len(set(ks)) == len(ks)]
+
+
+def gen_rfc_asts(ctx):
+    rng = common.rng_for(ctx.seed, "c01-rfc")
+    out = [("corpus", a) for a in RFC_WITNESSES]
+    # exhaustive-small: every value of length <= 2, every single paramtext / quoted-string of length <= 2
+    for n in range(0, 3):
+        for t in itertools.product(RFC_ALPHA, repeat=n):
+            out.append(("exh-value", ["X-a", [], "".join(t)]))
+        for t in itertools.product(RFC_SAFE, repeat=n):
+            out.append(("exh-paramtext", ["N", [["p", [[0, "".join(t)]]]], rng.choice(["", "v", ",", "C", "2C", ":"])]))
+        for t in itertools.product(RFC_QSAFE, repeat=n):
+            out.append(("exh-quoted", ["N", [["p", [[1, "".join(t)]]]], rng.choice(["", "v", ",", "C", "2C", ";"])]))
+
+    def rstr(alpha, lens=(0, 1, 2, 3, 5, 8)):
+        return "".join(rng.choice(alpha) for _ in range(rng.choice(lens)))
+
+    def rname():
+        return "".join(rng.choice(RFC_NAME) for _ in range(rng.randrange(1, 5)))
+    for _ in range(30000 if ctx.big else 3000 * (1 + 3 * ctx.level)):
+        params = []
+        for _ in range(rng.choice((0, 1, 1, 2, 3))):
+            if params and rng.random() < 0.08:       # a repeated name, possibly in another letter case
+                k = rng.choice(params)[0]
+                k = k.swapcase() if rng.random() < 0.5 else k
+            else:
+                k = rname()
+            vals = []
+            for _ in range(rng.choice((1, 1, 1, 2, 3))):
+                vals.append([1, rstr(RFC_QSAFE)] if rng.random() < 0.45 else [0, rstr(RFC_SAFE)])
+            params.append([k, vals])
+        out.append(("random", [rname(), params, rstr(RFC_ALPHA, (0, 1, 3, 6, 12))]))
+    return out
+
+
+def run_first_parse_rfc(ctx, res):
+    from icalendar.parser import Contentline
+    M = ctx.model
+    known = ctx.known
+    cases = gen_rfc_asts(ctx)
+    reqs, rows = [], []
+    for kind, ast in cases:
+        res.dist("rfc:" + kind)
+        text = rfc_print_py(ast)
+        res.count(("rfc", text, repr(ast)), nontrivial=bool(ast[1]) or any(c in ast[2] for c in '\\;:,"%'))
+        assert rfc_ok(ast), ast                       # the generator produces well-formed trees only
+        try:
+            n, p, v = Contentline(text).parts()
+            impl = [n, T.obs_params(p), v]
+        except ValueError:
+            impl = ["err", "ValueError"]
+        rows.append((kind, ast, text, impl))
+        reqs.append(("rfc_line", ast))
+        reqs.append(("parts", text))
+    outs = M.batch(reqs) if M else None
+    n_in = n_out = n_out_equal = 0
+    for i, (kind, ast, text, impl) in enumerate(rows):
+        den = rfc_denote_py(ast)
+        g = rfc_guard_py(ast)
+        agree = True
+        if outs is not None:
+            m, m_parts = outs[2 * i], outs[2 * i + 1]
+            if m == ["unsupported"]:
+                res.unsupported += 1
+                continue
+            m_print, m_den, m_ok, g1, g2, g3 = m
+            # (a) the model's reading against the independent one written above
+            res.corr("rfc_print (model) vs independent printer", ast, text, m_print)
+            res.corr("rfc_denote (model) vs independent denotation", ast, den, m_den)
+            res.corr("rfc_line_ok / first_parse_guard (model) vs independent", ast, [1] + [int(b) for b in g], [m_ok, g1, g2, g3])
+            agree = res.corr("Contentline.parts", text, impl, m_parts)
+            if m_parts == ["unsupported"] and not (g1 and g2 and g3):
+                continue                                  # the model declines (non-ASCII text reaches a name): counted, not classified
+            den, g = m_den, [bool(g1), bool(g2), bool(g3)]          # the theorem is about the model's reading
+        if all(g):
+            n_in += 1
+            # (b) inside the guard of theorem C01_first_parse_rfc the implementation must return the denotation
+            if impl != den:
+                res.fail("C01 first parse inside the theorem's guard: Contentline.parts(text printed from a well-formed "
+                         "RFC 5545 syntax tree) is not what the text denotes", {"ast": ast, "text": text},
+                         observed=impl, expected=den)
+            continue
+        n_out += 1
+        if impl == den:
+            n_out_equal += 1                          # the guard would not have been needed for this tree
+            continue
+        fid = "C01-F3" if not (g[0] and g[1]) else "C01-F4"
+        if fid in known and agree:
+            res.known(fid, {"text": text, "parts": impl, "denotes": den}, known[fid]["summary"])
+        else:
+            res.fail("C01 first parse outside the guard: the difference is not the one the model of parts() predicts"
+                     if fid in known else "C01 first parse: a well-formed RFC 5545 line is not read as the text denotes",
+                     {"ast": ast, "text": text}, observed=impl, expected=den)
+    res.extra["rfc_first_parse_inside_guard"] = n_in
+    res.extra["rfc_first_parse_outside_guard"] = n_out
+    res.extra["rfc_first_parse_outside_guard_but_equal"] = n_out_equal
+    res.sample({"rfc_ast": RFC_WITNESSES[10], "text": rfc_print_py(RFC_WITNESSES[10]), "denotes": rfc_denote_py(RFC_WITNESSES[10])})
 
 
 def _brief(o, lim=600):
@@ -276,6 +458,21 @@ def _brief(o, lim=600):
 
 def replay(ctx, data):
     import icalendar
+    if isinstance(data.get("input"), dict) and "ast" in data["input"]:
+        from icalendar.parser import Contentline
+        ast = data["input"]["ast"]
+        text = rfc_print_py(ast)
+        print("syntax tree :", ast)
+        print("text        :", repr(text))
+        print("denotes     :", rfc_denote_py(ast), " guard (no escape, no placeholder, names distinct):", rfc_guard_py(ast))
+        try:
+            n, p, v = Contentline(text).parts()
+            print("parts()     :", [n, T.obs_params(p), v])
+        except ValueError as e:
+            print("parts()     : ValueError", e)
+        if ctx.model:
+            print("model       :", ctx.model.batch([("rfc_line", ast), ("parts", text)]))
+        return
     x = data["input"]["x"] if isinstance(data.get("input"), dict) else data["input"]
     o1, _, comps = T.impl_parse(x)
     print("first parse :", _brief(o1, 2000))
